@@ -277,6 +277,23 @@ func RunLong(w *World, o LongOpts) error {
 		w.CheckBalances(n, addrs)
 	}
 	w.CheckAgreement(addrs)
+	// once more on a single tip (every live vertex is then counted by a balance query): merge the tips of node 0 and let
+	// the parked vertices have their retries
+	for round := 0; round < 4; round++ {
+		t := w.NewTrx(w.Users[0], w.Users[1].Addr, spice.Melange{}, []byte("final merge"))
+		d.proposeOn(w.Nodes[0], &t, "final merge")
+	}
+	for i := 0; i < 60; i++ {
+		if ok, _ := w.Retry(w.Nodes[0]); !ok {
+			break
+		}
+	}
+	for round := 0; round < 2; round++ {
+		t := w.NewTrx(w.Users[0], w.Users[1].Addr, spice.Melange{}, []byte("final merge"))
+		d.proposeOn(w.Nodes[0], &t, "final merge")
+	}
+	w.CheckConservation(w.Nodes[0])
+	w.CheckBalances(w.Nodes[0], addrs)
 	return nil
 }
 
